@@ -105,32 +105,36 @@ func (s *scheduler) yield(th *thread, why string) {
 	}
 }
 
+// pick chooses the next thread.  Delay-bounded scheduling: the default scheduler is
+// deterministic (keep running the current thread while it is enabled, otherwise the
+// enabled thread with the lowest id); every deviation from it costs one unit of the
+// budget (maxPreempt).  All schedules within the budget are explored.
 func (s *scheduler) pick(th *thread, enabled []*thread) *thread {
-	selfEnabled := false
+	var def *thread
 	for _, t := range enabled {
 		if t == th {
-			selfEnabled = true
+			def = th
 		}
 	}
-	var opts []*thread
-	if selfEnabled {
-		opts = append(opts, th)
-		if s.preemptions < s.maxPreempt {
-			for _, t := range enabled {
-				if t != th {
-					opts = append(opts, t)
-				}
+	if def == nil {
+		def = enabled[0]
+	}
+	opts := []*thread{def}
+	if s.preemptions < s.maxPreempt {
+		for _, t := range enabled {
+			if t != def {
+				opts = append(opts, t)
 			}
 		}
-	} else {
-		opts = enabled
 	}
 	k := 0
 	if len(opts) > 1 {
 		k = s.i.choose(len(opts), "sched")
-		s.i.ps.choices = append(s.i.ps.choices, fmt.Sprintf("sched@%s:%s->%s", th.name, th.why, opts[k].name))
+		if k != 0 {
+			s.i.ps.choices = append(s.i.ps.choices, fmt.Sprintf("sched@%s:%s->%s", th.name, th.why, opts[k].name))
+		}
 	}
-	if selfEnabled && opts[k] != th {
+	if k != 0 {
 		s.preemptions++
 	}
 	return opts[k]
